@@ -41,6 +41,7 @@ func rejectMode(r *sim.Rng, nChains, nBlocks int, outDir string) {
 					if e != nil {
 						panic(e)
 					}
+					paramsBefore := sim.ParamsView(a.FSM)
 					var txs [][]byte
 					for i := 0; i < 1+r.Intn(5); i++ {
 						tx, _ := other.Next(a.FSM)
@@ -58,6 +59,10 @@ func rejectMode(r *sim.Rng, nChains, nBlocks int, outDir string) {
 					header, _, aerr := a.FSM.ApplyBlock(context.Background(), &lib.Block{BlockHeader: hdr, Transactions: txs}, true)
 					executed := aerr == nil && header != nil && len(header.StateRoot) != 0
 					a.FSM.Reset() // the rejection
+					if after := sim.ParamsView(a.FSM); after != paramsBefore {
+						sim.Direct(outDir, map[string]any{"finding": "rejected-block-left-trace", "kind": "the parameters reported by the state machine differ after a rejected block",
+							"height": h, "params_before": paramsBefore, "params_after": after})
+					}
 					post, e := sim.ScanState(a.FSM)
 					if e != nil {
 						panic(e)
